@@ -73,7 +73,9 @@ Print Assumptions C06_ipcp_wire_ack.
 
 (* ---- the session adopts only the assigned address ------------------------------------------- *)
 
-(* Repaired behaviour.  For every AAA answer (none, usable, 0.0.0.0, an IPv6 literal, anything) and every
+(* Repaired behaviour (startNCP as of /repo 24c9504: no constant fall-back address).  Either IPCP was never
+   started — the session then has no IPv4 address and IPCP is not open — or the following holds.
+   For every AAA answer (none, usable, 0.0.0.0, an IPv6 literal, anything) and every
    history of subscriber Configure-Requests (arbitrary bytes), Configure-Acks, Configure-Naks and
    Configure-Rejects for our own request (arbitrary bytes) and re-authentications with a different AAA
    answer on the same session (startNCP run again): the assigned address is
@@ -82,11 +84,22 @@ Print Assumptions C06_ipcp_wire_ack.
 Theorem C06_adopted_is_assigned :
   forall aaa es,
   let s := sess_run repaired (sess_start repaired aaa) es in
-  usable (ic_assigned (s_cfg s)) = true /\
-  to4o (s_addr s) = ic_assigned (s_cfg s) /\
-  (pp_addr (s_peer s) = None \/ pp_addr (s_peer s) = ic_assigned (s_cfg s)).
+  (s_fsm s = 0%N /\ s_addr s = None /\ s_open s = false) \/
+  (usable (ic_assigned (s_cfg s)) = true /\
+   to4o (s_addr s) = ic_assigned (s_cfg s) /\
+   (pp_addr (s_peer s) = None \/ pp_addr (s_peer s) = ic_assigned (s_cfg s))).
 Proof. exact adopted_is_assigned. Qed.
 Print Assumptions C06_adopted_is_assigned.
+
+(* while IPCP has not been started the session is silent and stays closed whatever the subscriber sends
+   (any variant) *)
+Theorem C06_idle_silent :
+  forall fl s e, is_reauth e = false ->
+  s_fsm s = 0%N /\ s_addr s = None /\ s_open s = false ->
+  (s_fsm (fst (sess_step fl s e)) = 0%N /\ s_addr (fst (sess_step fl s e)) = None /\
+   s_open (fst (sess_step fl s e)) = false) /\ snd (sess_step fl s e) = [].
+Proof. exact sess_step_idle. Qed.
+Print Assumptions C06_idle_silent.
 
 (* In every variant no packet of the subscriber changes the assigned address: Ack/Nak contents only
    overwrite the BNG's own DNS (and local address) values.  Only a new AAA answer (EvReauth) does. *)
@@ -96,10 +109,19 @@ Theorem C06_assigned_immutable :
 Proof. exact sess_run_assigned. Qed.
 Print Assumptions C06_assigned_immutable.
 
-(* startNCP never leaves IPCP without a usable assigned address (the "unassigned" branch of
-   ProcessConfReq, in which any non-zero proposal is acknowledged, is unreachable from a session). *)
+(* startNCP starts IPCP (Req-Sent, our Configure-Request out) exactly when the session owns a usable IPv4
+   address, with exactly that address assigned; a session without a usable address never starts IPCP: the
+   FSM stays in Initial, the session address is nil, nothing is assigned (and by C06_idle_silent nothing is
+   ever sent or adopted).  The "nothing to assign: acknowledge any non-zero proposal" branch of
+   ProcessConfReq can therefore never produce a packet. *)
 Theorem C06_startncp_assigned :
-  forall aaa, usable (ic_assigned (s_cfg (sess_start repaired aaa))) = true.
+  forall aaa,
+  let s := sess_start repaired aaa in
+  (usable (extract_ip repaired aaa) = true ->
+     s_fsm s = 6%N /\ usable (ic_assigned (s_cfg s)) = true /\
+     ic_assigned (s_cfg s) = to4o (extract_ip repaired aaa) /\ s_addr s = extract_ip repaired aaa) /\
+  (usable (extract_ip repaired aaa) = false ->
+     s_fsm s = 0%N /\ s_addr s = None /\ s_open s = false /\ ic_assigned (s_cfg s) = None).
 Proof. exact startncp_assigned. Qed.
 Print Assumptions C06_startncp_assigned.
 
@@ -110,7 +132,7 @@ Theorem C06_adopted_is_assigned_refuted :
   let fl := mkflags false true false in
   let s := sess_run fl (sess_start fl aaa) es in
   s_open s = true /\ s_addr s = None /\ usable (ic_assigned (s_cfg s)) = true.
-Proof. exists None, [EvReq 1 []; EvAck]. vm_compute. repeat split. Qed.
+Proof. exists (Some (v4prefix ++ [10;0;0;5])%N), [EvReq 1 []; EvAck]. vm_compute. repeat split. Qed.
 Print Assumptions C06_adopted_is_assigned_refuted.
 
 (* What the code does today (1b): after a re-authentication that changes the assignment from A to B the
@@ -128,18 +150,20 @@ Proof.
 Qed.
 Print Assumptions C06_adopted_stale_refuted.
 
-(* What the code does today (2): an AAA address of 0.0.0.0 (or an IPv6 literal) is kept, IPCP runs
-   unassigned and the subscriber gets whatever address it proposes (here 6.6.6.6) acknowledged and adopted. *)
-Theorem C06_startncp_assigned_refuted :
+(* Before fix bc32486 (2): an unusable AAA address (0.0.0.0, IPv6 literal) was kept by
+   extractIPFromAttributes.  With startNCP as of 24c9504 this no longer starts IPCP unassigned, but on a
+   re-authentication it still wipes the address of a session whose IPCP is open with A assigned. *)
+Theorem C06_aaa_unusable_refuted :
   exists aaa es,
   let fl := mkflags false false true in
   let s := sess_run fl (sess_start fl aaa) es in
-  usable (ic_assigned (s_cfg s)) = false /\ s_open s = true /\ s_addr s = Some [6;6;6;6]%N.
+  s_open s = true /\ s_addr s = None /\ ic_assigned (s_cfg s) = Some [10;0;0;5]%N.
 Proof.
-  exists (Some (v4prefix ++ [0;0;0;0])%N), [EvReq 1 [3;6;6;6;6;6]%N; EvAck].
+  exists (Some (v4prefix ++ [10;0;0;5])%N),
+         [EvReq 1 [3;6;10;0;0;5]%N; EvAck; EvReauth (Some (v4prefix ++ [0;0;0;0])%N)].
   vm_compute. repeat split.
 Qed.
-Print Assumptions C06_startncp_assigned_refuted.
+Print Assumptions C06_aaa_unusable_refuted.
 
 (* ---- LCP ------------------------------------------------------------------------------------ *)
 
@@ -253,6 +277,18 @@ Theorem C06_ipcp_history :
         In (mkopt 3 v) (r_nak r) /\ is_good r = false /\ ~ In o (r_ack r))).
 Proof. exact ipcp_history. Qed.
 Print Assumptions C06_ipcp_history.
+
+(* What an IPCP object remembers as the negotiated peer address (peer.Address) is after every history an
+   address it would acknowledge again under the configuration in force — in particular never an address
+   accepted under a previous assignment (SetPeerAddress forgets it, /repo 95b0af2).  A shortcut "acknowledge
+   what was acknowledged before" (seeded change C06_m1) is therefore behaviourally neutral on the fixed tree. *)
+Theorem C06_ipcp_remembered_is_acceptable :
+  forall ops s,
+  (forall x, pp_addr (io_peer s) = Some x -> ipcp_kind (io_cfg s) (mkopt 3 x) = KAck) ->
+  forall x, pp_addr (io_peer (iobj_run repaired s ops)) = Some x ->
+            ipcp_kind (io_cfg (iobj_run repaired s ops)) (mkopt 3 x) = KAck.
+Proof. exact iobj_run_remembered. Qed.
+Print Assumptions C06_ipcp_remembered_is_acceptable.
 
 (* Same for one LCP object (requests interleaved with Ack/Nak/Reject of our own options — which may change
    the local magic number and fill rejected[...] — and SetMagic/SetMRU/SetAuthProto): each request is
